@@ -31,7 +31,7 @@ BASE = {
     'float': lambda i, j: 1.5 + i + 10 * j,
     'obj': lambda i, j: ['o', 3, 2.5][(i + j) % 3],
     'objnan': lambda i, j: ['p', 4][(i + j) % 2],
-    'date': lambda i, j: np.datetime64('2020-01-0%d' % (1 + i + 3 * j)),
+    'date': lambda i, j: np.datetime64('2020-01-01') + np.timedelta64(i + 3 * j, 'D'),
     'int': lambda i, j: 7 + i + 10 * j,
     'str': lambda i, j: 's%d%d' % (i, j),
     'bool': lambda i, j: (i + j) % 2 == 0,
@@ -69,6 +69,9 @@ def cases(tier):
             if sum(1 for k in kinds if k == 'float') < 2:
                 continue
             yield ('W', kinds, 1, 0)
+    if tier == 'quick':
+        # six columns are the least that show a run-length carried over the wrong end of a 2-D block (limit 2, block [nan, v, nan, nan, w] after a 1-D block)
+        yield ('W', ('float',) * 6, 1, 0)
 
 
 def universe(tier):
